@@ -43,6 +43,7 @@ INVARIANTS = [
     "FlatEquivalent",
     "LineOrder",
     "MirrorSameChains",
+    "CUnused",
     "NamesConsistent",
 ]
 
@@ -57,6 +58,7 @@ TIERS = {
         BaryonJ2=[1, 2],
         DecOpts=["pbreak", "l1"],
         ParOpts=["float_g_bnd", "float_mg_bnd"],
+        COpts=["c-", "cc+"],
         AllLines=False,
         n_amp=500,
         n_var=100,
@@ -70,6 +72,7 @@ TIERS = {
         BaryonJ2=[1, 2],
         DecOpts=["pbreak", "pball", "l0", "l1"],
         ParOpts=["float_m", "bnd", "float_g_bnd", "float_mg_bnd"],
+        COpts=["c+", "c-", "cc+", "cc-"],
         AllLines=True,
         n_amp=5000,
         n_var=800,
@@ -87,7 +90,7 @@ def _cfg(ctx, t, separate=False):
     p = os.path.join(ctx.work, "decaycard_%s%s.cfg" % (ctx.tier, "_sep" if separate else ""))
     with open(p, "w") as f:
         f.write("CONSTANTS\n")
-        for k in ("Shapes", "Schemes", "MesonJ2", "ScalarJ2", "BaryonJ2", "DecOpts", "ParOpts"):
+        for k in ("Shapes", "Schemes", "MesonJ2", "ScalarJ2", "BaryonJ2", "DecOpts", "ParOpts", "COpts"):
             f.write("  %s = %s\n" % (k, _tla_set(t[k])))
         f.write("  AllLines = %s\n" % ("TRUE" if t["AllLines"] else "FALSE"))
         f.write("INIT Init\nNEXT Next\n")
@@ -143,6 +146,9 @@ def particle_props(c, name, alias=False, jstyle="float"):
         m0, g0, lo, hi = res_numbers(name)
         d[kM] = m0
         d[kG] = g0
+        cq = c["cq"].get(name, 0) if isinstance(c.get("cq"), dict) else 0
+        if cq:
+            d["C"] = cq
         fl = c["float"].get(name, "")
         if fl:
             d["float"] = fl
@@ -159,6 +165,8 @@ def line_entry(ln):
     opts = {}
     if ln["pbreak"]:
         opts["p_break"] = True
+    if not ln.get("cbreak", True):
+        opts["c_break"] = False
     if ln["ll"]:
         opts["l_list"] = sorted(ln["ll"])
     if opts:
@@ -264,6 +272,10 @@ def project(cfg, share=None, amp=True, want_config=False):
             for d in ch:
                 for p in (d.core,) + tuple(d.outs):
                     qn[str(p)] = (j2_of(p.J), int(p.P))
+                    out.setdefault("cq", {})[str(p)] = None if p.C is None else int(p.C)
+                did = "%s->%s" % (d.core, "+".join(sorted(str(o) for o in d.outs)))
+                out.setdefault("switches", {})[did] = (bool(d.p_break), bool(d.c_break))
+                out.setdefault("ls", {})[did] = tuple(sorted((int(l), j2_of(sp)) for l, sp in d.get_ls_list()))
         out["order"] = chains
         out["chains"] = frozenset(chains)
         out["binary"] = shape_ok
@@ -273,6 +285,7 @@ def project(cfg, share=None, amp=True, want_config=False):
                 a = config.get_amplitude()
                 names = set(a.get_params().keys())
                 out["names"] = frozenset(names)
+                out["mw"] = {k: round(float(v), 9) for k, v in a.get_params().items() if k.endswith("_mass") or k.endswith("_width")}
                 out["vm_names"] = frozenset(config.vm.variables.keys())
                 free = set(config.vm.trainable_vars)
                 out["free"] = frozenset(free)
@@ -297,6 +310,19 @@ def expected(c):
         "free": frozenset(c["free"]),
     }
     exp["chains"] = frozenset(exp["order"])
+    kd = sorted(set(i for s_ in c["kept"] for i in s_))
+    did = lambda d: "%s->%s" % (d["core"], "+".join(sorted(d["outs"])))  # noqa: E731
+    exp["ls"] = {did(E[i - 1]): tuple(sorted((l, s2) for l, s2 in c["allowed"][i - 1])) for i in kd}
+    exp["switches"] = {did(E[i - 1]): (bool(E[i - 1]["pbreak"]), bool(E[i - 1].get("cbreak", True))) for i in kd}
+    cqd = c["cq"] if isinstance(c.get("cq"), dict) else {}
+    parts = set(n for i in kd for n in [E[i - 1]["core"]] + list(E[i - 1]["outs"]))
+    exp["cq"] = {n: (cqd.get(n) or None) for n in parts}
+    exp["mw"] = {}
+    for n in c["names"]:
+        if n.endswith("_mass"):
+            exp["mw"][n] = res_numbers(n[: -len("_mass")])[0]
+        elif n.endswith("_width"):
+            exp["mw"][n] = res_numbers(n[: -len("_width")])[1]
     b = c["bounded"] if isinstance(c["bounded"], dict) else {}
     bounds = {}
     for n, kind in b.items():
@@ -343,6 +369,10 @@ def compare_with_spec(ctx, c, cid, got, exp, tag=""):
     if bad_qn:
         ctx.violation(cid + tag + ":quantum_numbers", {"got": bad_qn})
         ok = False
+    for k in ("cq", "switches", "ls"):
+        if got.get(k) != exp[k]:
+            ctx.violation(cid + tag + ":" + k, {"got": got.get(k), "expected": exp[k]})
+            ok = False
     if "amp_error" in got:
         ctx.violation(cid + tag + ":amplitude", {"error": got["amp_error"]})
         return False
@@ -353,13 +383,16 @@ def compare_with_spec(ctx, c, cid, got, exp, tag=""):
         if got["free"] != exp["free"] or got["free_dup"]:
             ctx.violation(cid + tag + ":free", {"not_free": sorted(exp["free"] - got["free"]), "unexpectedly_free": sorted(got["free"] - exp["free"]), "dup": got["free_dup"]})
             ok = False
+        if got["mw"] != exp["mw"]:
+            ctx.violation(cid + tag + ":mass_width_values", {"got": got["mw"], "expected": exp["mw"]})
+            ok = False
         if got["bounds"] != exp["bounds"] or got["gauss"]:
             ctx.violation(cid + tag + ":bounds", {"got": got["bounds"], "expected": exp["bounds"], "gauss": got["gauss"]})
             ok = False
     return ok
 
 
-REL_KEYS = ("error", "chains", "qn", "names", "free", "bounds", "gauss", "amp_error")
+REL_KEYS = ("error", "chains", "qn", "cq", "switches", "ls", "names", "free", "mw", "bounds", "gauss", "amp_error")
 
 
 def relevant(p):
@@ -427,6 +460,29 @@ def variants(ctx, c, rng, serial):
     # through files
     d = os.path.join(ctx.work, "inc")
     os.makedirs(d, exist_ok=True)
+    # included definition overridden in the card with the OTHER spelling of the same attribute
+    # (Par/P, m0/mass, g0/width): the card's own value wins (config.sample.yml)
+    canon_alias = {"P": "Par", "mass": "m0", "width": "g0"}
+
+    def wrong_values(props):
+        w = dict(props)
+        w["P"] = -w["P"]
+        w["mass"] = round(w["mass"] + 0.3, 3)
+        w["width"] = round(w["width"] + 0.02, 3)
+        return w
+
+    inc_canon = {r: wrong_values(table[r]) for r in res}
+    main_alias = {r: {canon_alias[k]: table[r][k] for k in canon_alias} for r in res}
+    cfg1 = make_config(c, include="res.yml", res_split={})
+    cfg1["particle"].update(copy.deepcopy(main_alias))
+    out.append(("include_canonical_override_alias", cfg1, {"res.yml": inc_canon}))
+    inc_alias = {r: {canon_alias.get(k, k): v for k, v in wrong_values(table[r]).items()} for r in res}
+    main_canon = {r: {k: table[r][k] for k in canon_alias} for r in res}
+    f0 = write_yaml(os.path.join(d, "res_%d_o.yml" % serial), inc_alias)
+    cfg2 = make_config(c, include=f0, res_split={})
+    cfg2["particle"].update(copy.deepcopy(main_canon))
+    cfg2["particle"] = shuffle_keys(cfg2["particle"], rng)
+    out.append(("include_alias_file_override_canonical", cfg2, None))
     f1 = write_yaml(os.path.join(d, "res_%d_a.yml" % serial), table)
     out.append(("include_file", make_config(c, include=f1, res_split={}), None))
     # list of files with disjoint content
@@ -586,9 +642,19 @@ def bind(ctx, tf_cards, ids, t, only=None):
                 except Exception as e:  # noqa: BLE001
                     back = {"error": "%s: %s" % (type(e).__name__, e)}
                 n_exp += 1
-                if back.get("error") or back["chains"] != base["chains"] or len(back["order"]) != len(base["order"]) or back["qn"] != base["qn"]:
-                    dk = [k for k in ("error", "chains", "qn") if back.get(k) != base.get(k)]
-                    ctx.violation("%s:export:%s:%s" % (cid, when, "+".join(dk) or "count"), {"reloaded": describe(back, dk), "original": describe(base, dk)})
+                exp_keys = ["error", "chains", "qn", "cq", "switches", "ls"]
+                dk = [k for k in exp_keys if back.get(k) != base.get(k)]
+                if "ls" in dk and not back.get("error"):
+                    # l_list is not part of the export (HelicityDecay consumes it): where the card restricts l the
+                    # reloaded list may only be a superset; everywhere else it has to be identical
+                    restricted = set("%s->%s" % (d_["core"], "+".join(sorted(d_["outs"]))) for d_ in c["expand"] if d_["ll"])
+                    if all((k in restricted and set(v) <= set(back["ls"].get(k, ()))) or back["ls"].get(k) == v for k, v in base["ls"].items()) and set(back["ls"]) == set(base["ls"]):
+                        dk.remove("ls")
+                        ctx.part("model_drift", l_list_not_exported=1)
+                if not back.get("error") and len(back["order"]) != len(base["order"]):
+                    dk.append("count")
+                if dk:
+                    ctx.violation("%s:export:%s:%s" % (cid, when, "+".join(dk)), {"reloaded": describe(back, dk), "original": describe(base, dk)})
     ctx.part("variants", cards=len(var_idx), loads=n_var, equal=n_var_equal, kinds=vkinds, export_reloads=n_exp)
     ctx.log("variants: %d loads on %d cards, %d equal; %d export round trips" % (n_var, len(var_idx), n_var_equal, n_exp))
 
